@@ -155,6 +155,17 @@ def leaf_diffs(a, b, out, in_call=False):
     return False
 
 
+def uncaption_pre(t):
+    """The tree with every caption whose only child is a PREFORMATTED node replaced by that node's children
+    (known finding K03: the emitter writes the caption text on its own line with a leading blank)."""
+    if isinstance(t, list):
+        if len(t) == 6 and t[0] == "TABLE_CAPTION" and isinstance(t[4], list) and len(t[4]) == 1 \
+                and isinstance(t[4][0], list) and len(t[4][0]) == 6 and t[4][0][0] == "PREFORMATTED":
+            return [t[0], t[1], uncaption_pre(t[2]), t[3], uncaption_pre(t[4][0][4]), t[5]]
+        return [uncaption_pre(x) for x in t]
+    return t
+
+
 def classify(n1, n2, default):
     """Known limitation gets its own oracle name: inside call arguments the <noinclude/> guard that
     node_to_wikitext puts between literal double brackets is kept as text by the parser."""
@@ -162,6 +173,14 @@ def classify(n1, n2, default):
     if leaf_diffs(n1, n2, diffs) and diffs and all(
             c and b.replace("[<noinclude/>[", "[[").replace("]<noinclude/>]", "]]") == a for a, b, c in diffs):
         return "brackets_in_call_argument_roundtrip"
+    u2 = uncaption_pre(n2)
+    if u2 != n2:
+        if u2 == n1:
+            return "caption_leading_blank_roundtrip"
+        diffs = []   # both known limitations in one document
+        if leaf_diffs(n1, u2, diffs) and diffs and all(
+                c and b.replace("[<noinclude/>[", "[[").replace("]<noinclude/>]", "]]") == a for a, b, c in diffs):
+            return "caption_leading_blank_roundtrip"
     return default
 
 
@@ -215,6 +234,12 @@ def check_doc(ctx, doc, subtrees):
                 ok = contains_nf(got, want) if what == "node" else (got[4] == want)
                 if not ok:
                     orc = "subtree_roundtrip"
+                    g3 = uncaption_pre(got)
+                    if g3 != got:
+                        g4 = strip_guard(g3) if ("<noinclude/>" in ws and "{{" in ws) else g3
+                        if (contains_nf(g3, want) if what == "node" else (g3[4] == want)) or \
+                                (contains_nf(g4, want) if what == "node" else (g4[4] == want)):
+                            orc = "caption_leading_blank_roundtrip"
                     if "<noinclude/>" in ws and ("{{" in ws):
                         g2 = strip_guard(got)
                         ok2 = contains_nf(g2, want) if what == "node" else (g2[4] == want)
